@@ -22,6 +22,13 @@ def run(ctx):
         ctx.exhaustive = False
     fl.run_mixes(ctx, rpf, fjobs, max_paths=300 if ctx.quick else None)
     fm = ctx.extra.get("mixes", [])
+    # the same protocol over a 64-byte tracked payload (does not fit the small buffers of type-erasing wrappers; copies
+    # are counted: constructed in place, read by reference - the library never needs to copy it), every API form, and the
+    # value resolver going through promise::bind(args...)()
+    rpb = fl.build_big(ctx)
+    fl.run_mixes(ctx, rpb, fjobs[:3] if ctx.quick else fjobs[:12], max_paths=200 if ctx.quick else None, tagp="b")
+    fl.run_mixes(ctx, rpb, [(["val"], ["co"]), (["val"], ["bl", "cb"]), (["val"], [])] + ([] if ctx.quick else [(["val"], ["co", "co", "co"]), (["val"], ["hv", "bl"])]),
+                 max_paths=200 if ctx.quick else None, tagp="bind", bind=True)
     ml.run_mixes(ctx, rpm, mjobs, max_paths=300 if ctx.quick else 20000)
     ctx.extra["mixes"] = {"future": fm, "mutex": ctx.extra.get("mixes", [])}
     # stepping a synchronous generator in every access style (Generator.tla restricted to synchronous bodies): the
@@ -35,6 +42,6 @@ def run(ctx):
             c06.alloc_replay(ctx)
     except ImportError:
         pass
-    ctx.assume("value type int (does not allocate); std::make_exception_ptr of the test exception is the caller's allocation")
+    ctx.assume("value types int and a 64-byte trivially destructible tracked object (neither allocates); std::make_exception_ptr of the test exception is the caller's allocation")
     ctx.assume("the lazily constructed thread-local ready queue (std::deque, once per thread) is not attributed to any operation: threads touch it before measurement")
     ctx.assume("more than three coroutine waiters released by one resolution (suspend point heap growth) is outside the property's 'up to three' clause and not exercised here")
